@@ -232,6 +232,8 @@ def evaluate(limit, files=None):
         key = (m["file"], m["line"], m["col"], m["op"])
         if key in done or (files and m["file"] not in files):
             continue
+        if m["line"] < int(os.environ.get("NVMUT_MINLINE", "0")):
+            continue
         if limit and n >= limit:
             break
         n += 1
